@@ -71,6 +71,10 @@ claimed = {
    text="Proof along the path a language takes: State.SetLanguage selects exactly the ISO-639-3 form of a known code and leaves the language alone for an unknown one; refresh switches the language only together with the LANG flag and to the returned code; Vm.Run's loop invariant says that whenever LANG is clear the context carries the state's language, and call-site assertions show that every LOAD/RELOAD/MOVE/INCMP/CATCH handler call (all external-function and code lookups) is made with that context; Engine.Exec and Engine.Flush put the state's language into the context before the VM runs or renders (call-site assertions); DbBase.ToKey derives the translation key from the store's language, else from the context's, and the memory/filesystem Get falls back to the default entry (C10 contracts).",
    note="Known finding H25 (SetLanguage(\"\") reports an error and clears the language). Not covered: survival across save/resume (cbor serialisation of State.Language is outside reach), lookups inside the assumed render contracts (RenderTemplate, Menu.Render: the context is passed through unchanged by Vm.Render/Page.Render, which is checked), PoResource. Trusted: ISO table stub, context.WithValue/Value stubs, vcgo translation, solvers.",
    ref="4/C18"),
+ "C07": dict(
+   text="Reduced form: proof of a one-state sufficient condition for the renderer part of the statement. The statement relates two executions (long-lived engine vs one engine per request on a store) and goes through cbor by reflection; neither is expressible as a function contract. What is decided: whenever execution resumes after a HALT (call-site assertions inside Vm.Run's loop, for every program and history), the renderer state that is not persisted has the values a freshly created VM has - mapping table empty, no sink, no extra text, no error notice, menu empty, page cursors empty - and Engine.prepare forgets the previous request's exit value / exiting / executed marks. So a long-lived engine enters every request with the same non-persisted state as an engine built from the saved session.",
+   note="Genuine defect found and repaired (fix: b2eba03): the error notice (Page.err) was kept for the lifetime of the VM, a long-lived engine prefixed every later page with 'invalid input: x' while per-request engines showed it once (known/H26_sticky_render_state_test.go compares both modes on the real code). NOT decided: equality of the two executions as a whole; Serialize/Deserialize being inverse on the persisted fields (cbor, reflection); the other scratch fields (Sizer.sink, Sizer.memberSizes, Menu.browse/pageCount) are not claimed; backends other than by their own properties (C10-C13).",
+   ref="4/C07"),
 }
 
 pending_reason = "pending: contracts for this property are not yet under vcgo (see DESIGN.md section 4)"
